@@ -27,6 +27,7 @@ func checkC16(c *Ctx, r *Report) {
 	checkWholeOps2(c, r)
 	checkGetRowWhole(c, r)
 	checkBitArrayHistories(c, r)
+	checkSetRowWhole(c, r)
 	r.Note("decided: the single-bit operations, per-word mask transitions, argument guards, word-geometry formulae, unconditional bit reversal in the 180-degree rotations and paired-slice loop bounds. Not decided: the model equivalence the property states over operation histories (rotation realignment shifts, GetNextSet/Unset scanning, growth) — run-time by nature")
 }
 
@@ -1817,4 +1818,83 @@ func cornerModel(name string, w, h int64, set [][2]int64) []int64 {
 		}
 	}
 	return []int64{l, tp, rg - l + 1, bt - tp + 1}
+}
+
+// S-SETROW: BitMatrix.SetRow writes one row and nothing else
+func checkSetRowWhole(c *Ctx, r *Report) {
+	r.Rule("S-SETROW", "BitMatrix.SetRow(y, row), folded from source on matrices of width 20, 40 and 64 with three rows, for every y and for row arrays of exactly the matrix width and - as GetRow hands them back when the caller's buffer was larger - of 100 and 200 bits: afterwards row y holds the array's bits 0..width-1 and every other row is as before (a row array with more words than a matrix row does not spill into the rows below)", 1)
+	fd, p := c.funcDeclOf("", "BitMatrix.SetRow")
+	key := "gozxing.BitMatrix.SetRow/whole"
+	if fd == nil {
+		r.AnchorLost("S-SETROW", key, "method not found")
+		return
+	}
+	r.Analysed(key)
+	u32 := func(v uint32) *Val { return &Val{K: VInt, I: int64(v), T: types.Typ[types.Uint32]} }
+	pat := func(x, y int64) bool { return (x*5+y*11+x*y)%3 == 0 }
+	rpat := func(x int64) bool { return (x*7+x/5)%4 < 2 }
+	bad := ""
+	for _, w := range []int64{20, 40, 64} {
+		const hgt = 3
+		rs := (w + 31) / 32
+		for _, rowBits := range []int64{w, 100, 200} {
+			for y := int64(0); y < hgt && bad == ""; y++ {
+				mbits := &Val{K: VList, Local: true}
+				for yy := int64(0); yy < hgt; yy++ {
+					for k := int64(0); k < rs; k++ {
+						var word uint32
+						for b := int64(0); b < 32; b++ {
+							if x := k*32 + b; x < w && pat(x, yy) {
+								word |= 1 << uint(b)
+							}
+						}
+						mbits.L = append(mbits.L, u32(word))
+					}
+				}
+				m := &Val{K: VStruct, Ptr: true, Local: true, Fields: map[string]*Val{"width": vint(w), "height": vint(hgt), "rowSize": vint(rs), "bits": mbits}}
+				words := &Val{K: VList, Local: true}
+				for k := int64(0); k < (rowBits+31)/32; k++ {
+					var word uint32
+					for b := int64(0); b < 32; b++ {
+						// a row GetRow filled: the matrix width's worth of bits, clear beyond
+						if x := k*32 + b; x < w && rpat(x) {
+							word |= 1 << uint(b)
+						}
+					}
+					words.L = append(words.L, u32(word))
+				}
+				row := &Val{K: VStruct, Ptr: true, Local: true, Fields: map[string]*Val{"bits": words, "size": vint(rowBits)}}
+				h := &rpf{unroll: 1000, effectCalls: true, env: map[types.Object]*Val{}}
+				h.env[recvObj(p, fd)] = m
+				what := fmt.Sprintf("SetRow(%d, an array of %d bits) on a %dx%d matrix", y, rowBits, w, hgt)
+				if _, err := c.rpfCall(fd, p, []*Val{vint(y), row}, h); err != nil {
+					bad = "?" + what + ": " + err.Error()
+					break
+				}
+				ws, ok := listInts(m.Fields["bits"])
+				if !ok || int64(len(ws)) != rs*hgt {
+					bad = what + ": the matrix storage changes its length"
+					break
+				}
+				for yy := int64(0); yy < hgt && bad == ""; yy++ {
+					for x := int64(0); x < w; x++ {
+						got := uint32(ws[yy*rs+x/32])>>(uint(x)%32)&1 == 1
+						want := pat(x, yy)
+						if yy == y {
+							want = rpat(x)
+						}
+						if got != want {
+							if yy == y {
+								bad = fmt.Sprintf("%s: module (%d,%d) is %v, the array's bit %d is %v", what, x, yy, got, x, want)
+							} else {
+								bad = fmt.Sprintf("%s: module (%d,%d) of another row changed from %v to %v", what, x, yy, want, got)
+							}
+							break
+						}
+					}
+				}
+			}
+		}
+	}
+	reportFold(r, c, "S-SETROW", key, fd.Pos(), bad)
 }
